@@ -1,5 +1,6 @@
 import NflowsModel.Properties.C16
 import NflowsModel.Lemmas.DualXSpline2
+import NflowsModel.Lemmas.DualXParam2
 /-!
 # C16 (continued) — the EXECUTED spline programs run on dual numbers return their own derivatives
 
@@ -82,5 +83,98 @@ example (a b p q x x' : ℝ) (h0 : 0 < x) (h1 : x < 1) :
         = .ok ((RQWhole.val RQWhole.eNV RQWhole.cNV [0] [0] [0, 0] x, v'), (RQWhole.ld RQWhole.eNV RQWhole.cNV [0] [0] [0, 0] x, l')) := by
   obtain ⟨v', l', h, -, -⟩ := DualX.rqSpline_dual_param_example a b p q x x' h0 h1
   exact ⟨v', l', h⟩
+
+/-! ## parameter directions of the other programs, and the chain rule through the executed coupling layer -/
+
+/-- executed RQ INVERSE program, every parameter direction and the input direction at once -/
+theorem rqSpline_inverse_param_dual {e : Float → ℝ} {c : RQCfg} {uw uh ud : List ℝ} (hv : RQWhole.RQValid e c uw uh ud)
+    (uw' uh' ud' : List ℝ) (hlw : uw.length = uw'.length) (hlh : uh.length = uh'.length) (hld : ud.length = ud'.length)
+    (hthr : ∀ k < ud.length, e c.beta * ud.getD k 0 ≠ 20)
+    (k : ℕ) (hk : k < uw.length) (y y' : ℝ) (h0 : RQWhole.ys e c uh k < y) (h1 : y < RQWhole.ys e c uh (k+1)) :
+    ∃ v' l' : ℝ, rqSpline (NF.dualX (NF.realX e)) c (List.zip uw uw') (List.zip uh uh') (List.zip ud ud') true (y, y')
+        = .ok ((RQInverseWhole.inv e c uw uh ud y, v'), (RQInverseWhole.invLd e c uw uh ud y, l')) ∧
+      HasDerivAt (fun s => RQInverseWhole.inv e c (DualXParam.lineL uw uw' s) (DualXParam.lineL uh uh' s)
+        (DualXParam.lineL ud ud' s) (y + s * y')) v' 0 ∧
+      HasDerivAt (fun s => RQInverseWhole.invLd e c (DualXParam.lineL uw uw' s) (DualXParam.lineL uh uh' s)
+        (DualXParam.lineL ud ud' s) (y + s * y')) l' 0 :=
+  DualX.rqSpline_dual_inv_param hv uw' uh' ud' hlw hlh hld hthr k hk y y' h0 h1
+
+/-- executed linear spline forward, parameter and input direction (no side condition on the parameters: softmax ties included) -/
+theorem linSpline_param_dual {e : Float → ℝ} {box : Box} {eps : Float} {up : List ℝ} (hv : LinWhole.LinValid e box eps up)
+    (up' : List ℝ) (hl : up.length = up'.length) (k : ℕ) (hk : k < up.length) (x x' : ℝ)
+    (h0 : LinWhole.kn up.length k < LinWhole.nx e box x) (h1 : LinWhole.nx e box x < LinWhole.kn up.length (k+1)) :
+    ∃ v' l' : ℝ, linSpline (NF.dualX (NF.realX e)) box eps (List.zip up up') false (x, x')
+        = .ok ((LinWhole.val e box eps up x, v'), (LinWhole.ld e box eps up x, l')) ∧
+      HasDerivAt (fun s => LinWhole.val e box eps (DualXParam.lineL up up' s) (x + s * x')) v' 0 ∧
+      HasDerivAt (fun s => LinWhole.ld e box eps (DualXParam.lineL up up' s) (x + s * x')) l' 0 :=
+  DualXLin.linSpline_dual_param hv up' hl k hk x x' h0 h1
+
+/-- executed quadratic spline forward (`K+1` heights), parameter and input direction -/
+theorem quadSpline_param_dual {e : Float → ℝ} {c : QCfg} {uw uh : List ℝ} (hv : QuadWhole.QuadValid e c uw uh)
+    (uw' uh' : List ℝ) (hlw : uw.length = uw'.length) (hlh : uh.length = uh'.length)
+    (hthr : ∀ j < uh.length, uh.getD j 0 ≠ 20)
+    (k : ℕ) (hk : k < uw.length) (x x' : ℝ) (h0 : QuadWhole.xk e c uw k < x) (h1 : x < QuadWhole.xk e c uw (k+1)) :
+    ∃ v' l' : ℝ, quadSpline (NF.dualX (NF.realX e)) c (List.zip uw uw') (List.zip uh uh') false (x, x')
+        = .ok ((QuadWhole.val e c uw uh x, v'), (QuadWhole.ld e c uw uh x, l')) ∧
+      HasDerivAt (fun s => QuadWhole.val e c (DualXParam.lineL uw uw' s) (DualXParam.lineL uh uh' s) (x + s * x')) v' 0 ∧
+      HasDerivAt (fun s => QuadWhole.ld e c (DualXParam.lineL uw uw' s) (DualXParam.lineL uh uh' s) (x + s * x')) l' 0 :=
+  DualXQuadParam.quadSpline_dual_param hv uw' uh' hlw hlh hthr k hk x x' h0 h1
+
+/-- … and the tails shape (`K-1` heights) -/
+theorem quadSpline_param_dual_tails_shape {e : Float → ℝ} {c : QCfg} {uw uh : List ℝ} (hv : QuadWhole.QuadValidT e c uw uh)
+    (uw' uh' : List ℝ) (hlw : uw.length = uw'.length) (hlh : uh.length = uh'.length)
+    (hthr : ∀ j < uh.length, uh.getD j 0 ≠ 20)
+    (k : ℕ) (hk : k < uw.length) (x x' : ℝ) (h0 : QuadWhole.xk e c uw k < x) (h1 : x < QuadWhole.xk e c uw (k+1)) :
+    ∃ v' l' : ℝ, quadSpline (NF.dualX (NF.realX e)) c (List.zip uw uw') (List.zip uh uh') false (x, x')
+        = .ok ((QuadWhole.val e c uw uh x, v'), (QuadWhole.ld e c uw uh x, l')) ∧
+      HasDerivAt (fun s => QuadWhole.val e c (DualXParam.lineL uw uw' s) (DualXParam.lineL uh uh' s) (x + s * x')) v' 0 ∧
+      HasDerivAt (fun s => QuadWhole.ld e c (DualXParam.lineL uw uw' s) (DualXParam.lineL uh uh' s) (x + s * x')) l' 0 :=
+  DualXQuadParam.quadSpline_dual_param_T hv uw' uh' hlw hlh hthr k hk x x' h0 h1
+
+/-- **chain rule through the EXECUTED coupling layer** (bounded RQ elements, both directions): the inputs `X` and the
+    conditioner's output array `P` move along ANY differentiable curves (`IsDualA`: the dual arrays carry their derivatives at `t`
+    — for `P` that is the derivative of whatever differentiable conditioner produced it); every output entry and every row
+    log-det of the dual run is the (value, total derivative) of the same entry of the real executed layer, identity features pass
+    through with their tangents, and the dual layer reports no error.  `LayerInterior`: every transformed element lies strictly
+    inside a bin and off the softplus threshold (the genuine non-differentiabilities of the executed program). -/
+theorem coupling_layer_dual {e : Float → ℝ} {t : ℝ} {X P : ℝ → Array ℝ} {dX dP : Array (ℝ × ℝ)} {c : NF.ElCfg}
+    (hk : c.kind = "rq") (ht : c.tails = false) (dmask : List (ℝ × ℝ)) (B S : ℕ)
+    (hX : DualXCoupling.IsDualA X t dX) (hP : DualXCoupling.IsDualA P t dP) (hsz : B * dmask.length * S ≤ dX.size)
+    (hin : DualXCoupling.LayerInterior e c (dmask.map Prod.fst) B S (X t) (P t)) :
+    (NF.couplingApply (NF.dualX (NF.realX e)) c dmask B S dX dP false).err = none ∧
+    (∀ {b ch s : ℕ}, b < B → ch < dmask.length → s < S →
+      DualX.IsDual (fun r => (NF.couplingApply (NF.realX e) c (dmask.map Prod.fst) B S (X r) (P r) false).out.getD
+          (NF.flatIdx dmask.length S b ch s) 0) t
+        ((NF.couplingApply (NF.dualX (NF.realX e)) c dmask B S dX dP false).out.getD (NF.flatIdx dmask.length S b ch s) 0)) ∧
+    (∀ {b : ℕ}, b < B →
+      DualX.IsDual (fun r => (NF.couplingApply (NF.realX e) c (dmask.map Prod.fst) B S (X r) (P r) false).ld.getD b 0) t
+        ((NF.couplingApply (NF.dualX (NF.realX e)) c dmask B S dX dP false).ld.getD b 0)) :=
+  ⟨DualXCoupling.coupling_rq_dual_err_none hk ht dmask B S hX hP hin,
+   fun hb hch hs => DualXCoupling.coupling_rq_dual_out hk ht dmask B S hX hP hsz hin hb hch hs,
+   fun hb => DualXCoupling.coupling_rq_dual_ld hk ht dmask B S hX hP hin hb⟩
+
+theorem coupling_layer_inverse_dual {e : Float → ℝ} {t : ℝ} {X P : ℝ → Array ℝ} {dX dP : Array (ℝ × ℝ)} {c : NF.ElCfg}
+    (hk : c.kind = "rq") (ht : c.tails = false) (dmask : List (ℝ × ℝ)) (B S : ℕ)
+    (hX : DualXCoupling.IsDualA X t dX) (hP : DualXCoupling.IsDualA P t dP) (hsz : B * dmask.length * S ≤ dX.size)
+    (hin : DualXCoupling.LayerInteriorI e c (dmask.map Prod.fst) B S (X t) (P t)) :
+    (∀ {b ch s : ℕ}, b < B → ch < dmask.length → s < S →
+      DualX.IsDual (fun r => (NF.couplingApply (NF.realX e) c (dmask.map Prod.fst) B S (X r) (P r) true).out.getD
+          (NF.flatIdx dmask.length S b ch s) 0) t
+        ((NF.couplingApply (NF.dualX (NF.realX e)) c dmask B S dX dP true).out.getD (NF.flatIdx dmask.length S b ch s) 0)) ∧
+    (∀ {b : ℕ}, b < B →
+      DualX.IsDual (fun r => (NF.couplingApply (NF.realX e) c (dmask.map Prod.fst) B S (X r) (P r) true).ld.getD b 0) t
+        ((NF.couplingApply (NF.dualX (NF.realX e)) c dmask B S dX dP true).ld.getD b 0)) :=
+  ⟨fun hb hch hs => DualXCoupling.coupling_rq_dual_out_inv hk ht dmask B S hX hP hsz hin hb hch hs,
+   fun hb => DualXCoupling.coupling_rq_dual_ld_inv hk ht dmask B S hX hP hin hb⟩
+
+/-- non-vacuity: a two-feature layer whose conditioner is an ARBITRARY pair of differentiable functions `g1, g2` of the identity
+    feature — the dual run returns the total derivative (through the conditioner) of the transformed feature and of the log-det -/
+example (g1 g2 : ℝ → ℝ) (g1' g2' z z' x x' : ℝ) (h1 : HasDerivAt g1 g1' z) (h2 : HasDerivAt g2 g2' z) (hx0 : 0 < x) (hx1 : x < 1) :
+    DualX.IsDual
+      (fun r => (NF.couplingApply (NF.realX RQWhole.eNV) DualXCoupling.cS [0, 1] 1 1 #[z + r * z', x + r * x']
+        #[g1 (z + r * z'), g2 (z + r * z'), 0, 0] false).out.getD 1 0) 0
+      ((NF.couplingApply (NF.dualX (NF.realX RQWhole.eNV)) DualXCoupling.cS [(0, 0), (1, 0)] 1 1 #[(z, z'), (x, x')]
+        #[(g1 z, g1' * z'), (g2 z, g2' * z'), (0, 0), (0, 0)] false).out.getD 1 0) :=
+  (DualXCoupling.coupling_rq_dual_example g1 g2 g1' g2' z z' x x' h1 h2 hx0 hx1).2.1
 
 end Properties.C16
